@@ -50,15 +50,16 @@ example : ∃ (f : File), f.structs ≠ [] ∧ (globalIds {} id f).Nodup :=
     `hraw`: field names are IDL identifiers, so they do not start with '$' (the prefix of the internal method ids);
     without it the statement is false on the model: with gen_setter off, a field literally named `$set:x` next to
     a field `x` is read back as the "setter" of `x` by `scope.Get("$set:x")`. -/
-theorem struct_members_nodup (ft : Feat) (ident : Bytes → Bytes) (raw : Bytes) (cat : Cat) (fields : List Fld)
-    (ns : NS) (fs : List FieldNames) (h : buildMembers ft ident raw cat fields = .ok (ns, fs))
-    (hid : (memberIds ft ident raw cat fields).Nodup)
+theorem struct_members_nodup (ft : Feat) (ident : Bytes → Bytes) (raw : Bytes) (goName : Bytes) (cat : Cat)
+    (fields : List Fld)
+    (ns : NS) (fs : List FieldNames) (h : buildMembers ft ident raw goName cat fields = .ok (ns, fs))
+    (hid : (memberIds ft ident raw goName cat fields).Nodup)
     (hraw : ∀ f ∈ fields, hasDollar f.name = false) :
-    (reservedFuncs ft cat raw ++ fs.flatMap fieldMethodNames ++ fs.map (·.name)).Nodup :=
-  Names.buildMembers_nodup ft ident raw cat fields ns fs h hid hraw
+    (reservedFuncs ft cat raw goName ++ fs.flatMap fieldMethodNames ++ fs.map (·.name)).Nodup :=
+  Names.buildMembers_nodup ft ident raw goName cat fields ns fs h hid hraw
 
 /-- the hypotheses are satisfiable: `struct S {1: i32 a, -2: optional i32 b}` with setters and DeepEqual -/
-example : (memberIds { setter := true, deq := true } id [83] .struct
+example : (memberIds { setter := true, deq := true, resV2 := true } id [83] [83] .struct
       [{ name := [97], id := 1, isset := false }, { name := [98], id := -2, isset := true }]).Nodup ∧
     (∀ f ∈ ([{ name := [97], id := 1, isset := false }, { name := [98], id := -2, isset := true }] : List Fld),
       hasDollar f.name = false) := by
@@ -135,7 +136,7 @@ theorem mint_clash_witness :
     the decidable hypothesis `noMemberMintClash`, every member of the generated struct is declared once. -/
 theorem struct_members_complete_partial (ft : Feat) (ident : Bytes → Bytes) (g g' : NS) (v : SL) (nn : Bytes)
     (s : StructNames) (synth : Bool) (h : buildStructLike ft ident g v nn = .ok (g', s))
-    (hid : (memberIds ft ident v.name v.cat v.fields).Nodup)
+    (hid : (memberIds ft ident v.name s.goName v.cat v.fields).Nodup)
     (hraw : ∀ f ∈ v.fields, hasDollar f.name = false)
     (hm : noMemberMintClash ft synth s = true) : (managedMembers ft s ++ mintedMembers ft synth s).Nodup :=
   Names.members_complete ft ident g g' v nn s synth h hid hraw hm
